@@ -111,6 +111,67 @@ namespace Bubus
 @[simp] theorem setNi_now (w : World) (n : Nat) : (w.setNi n).now = w.now := rfl
 @[simp] theorem setNi_cfg (w : World) (n : Nat) : (w.setNi n).cfg = w.cfg := rfl
 
+@[simp] theorem setWaiter_bus (w : World) (x : Nat) (s : WSt) : (w.setWaiter x s).bus = w.bus := rfl
+@[simp] theorem setWaiter_ev (w : World) (x : Nat) (s : WSt) : (w.setWaiter x s).ev = w.ev := rfl
+@[simp] theorem setWaiter_inst (w : World) (x : Nat) (s : WSt) : (w.setWaiter x s).inst = w.inst := rfl
+@[simp] theorem setWaiter_act (w : World) (x : Nat) (s : WSt) : (w.setWaiter x s).act = w.act := rfl
+@[simp] theorem setWaiter_lock (w : World) (x : Nat) (s : WSt) : (w.setWaiter x s).lock = w.lock := rfl
+@[simp] theorem setWaiter_nb (w : World) (x : Nat) (s : WSt) : (w.setWaiter x s).nb = w.nb := rfl
+@[simp] theorem setWaiter_ne (w : World) (x : Nat) (s : WSt) : (w.setWaiter x s).ne = w.ne := rfl
+@[simp] theorem setWaiter_ni (w : World) (x : Nat) (s : WSt) : (w.setWaiter x s).ni = w.ni := rfl
+@[simp] theorem setWaiter_now (w : World) (x : Nat) (s : WSt) : (w.setWaiter x s).now = w.now := rfl
+@[simp] theorem setWaiter_cfg (w : World) (x : Nat) (s : WSt) : (w.setWaiter x s).cfg = w.cfg := rfl
+@[simp] theorem setBus_waiter (w : World) (b : BId) (x : Bus) : (w.setBus b x).waiter = w.waiter := rfl
+@[simp] theorem setEv_waiter (w : World) (e : EId) (x : Ev) : (w.setEv e x).waiter = w.waiter := rfl
+@[simp] theorem setInst_waiter (w : World) (i : IId) (x : Inst) : (w.setInst i x).waiter = w.waiter := rfl
+@[simp] theorem setAct_waiter (w : World) (p : Proc) (x : Option Act) : (w.setAct p x).waiter = w.waiter := rfl
+@[simp] theorem setLock_waiter (w : World) (l : Option BId) : (w.setLock l).waiter = w.waiter := rfl
+@[simp] theorem setBus_nx (w : World) (b : BId) (x : Bus) : (w.setBus b x).nx = w.nx := rfl
+@[simp] theorem setEv_nx (w : World) (e : EId) (x : Ev) : (w.setEv e x).nx = w.nx := rfl
+@[simp] theorem setInst_nx (w : World) (i : IId) (x : Inst) : (w.setInst i x).nx = w.nx := rfl
+@[simp] theorem setAct_nx (w : World) (p : Proc) (x : Option Act) : (w.setAct p x).nx = w.nx := rfl
+@[simp] theorem setLock_nx (w : World) (l : Option BId) : (w.setLock l).nx = w.nx := rfl
+
+/-- the part of the world that is not about blocked external tasks -/
+structure Core where
+  cfg : Config
+  bus : BId → Bus
+  ev : EId → Ev
+  inst : IId → Inst
+  act : Proc → Option Act
+  lock : Option BId
+  nb : Nat
+  ne : Nat
+  ni : Nat
+  now : Nat
+
+def World.core (w : World) : Core :=
+  { cfg := w.cfg, bus := w.bus, ev := w.ev, inst := w.inst, act := w.act, lock := w.lock, nb := w.nb, ne := w.ne, ni := w.ni, now := w.now }
+
+@[simp] theorem setWaiter_core (w : World) (x : Nat) (s : WSt) : (w.setWaiter x s).core = w.core := rfl
+
+/-- `wake` only touches the blocked-external-task table -/
+theorem wake_core (w : World) : (wake w).core = w.core := by
+  unfold wake
+  generalize List.range w.nx = l
+  induction l generalizing w with
+  | nil => rfl
+  | cons x xs ih =>
+    simp only [List.foldl_cons]
+    rw [ih]
+    split <;> (try split) <;> simp
+
+@[simp] theorem wake_bus (w : World) : (wake w).bus = w.bus := congrArg Core.bus (wake_core w)
+@[simp] theorem wake_ev (w : World) : (wake w).ev = w.ev := congrArg Core.ev (wake_core w)
+@[simp] theorem wake_inst (w : World) : (wake w).inst = w.inst := congrArg Core.inst (wake_core w)
+@[simp] theorem wake_act (w : World) : (wake w).act = w.act := congrArg Core.act (wake_core w)
+@[simp] theorem wake_lock (w : World) : (wake w).lock = w.lock := congrArg Core.lock (wake_core w)
+@[simp] theorem wake_nb (w : World) : (wake w).nb = w.nb := congrArg Core.nb (wake_core w)
+@[simp] theorem wake_ne (w : World) : (wake w).ne = w.ne := congrArg Core.ne (wake_core w)
+@[simp] theorem wake_ni (w : World) : (wake w).ni = w.ni := congrArg Core.ni (wake_core w)
+@[simp] theorem wake_now (w : World) : (wake w).now = w.now := congrArg Core.now (wake_core w)
+@[simp] theorem wake_cfg (w : World) : (wake w).cfg = w.cfg := congrArg Core.cfg (wake_core w)
+
 /-- unfolding of the `mod…` helpers into setters -/
 @[simp] theorem modBus_eq (w : World) (b : BId) (f : Bus → Bus) : w.modBus b f = w.setBus b (f (w.bus b)) := rfl
 @[simp] theorem modEv_eq (w : World) (e : EId) (f : Ev → Ev) : w.modEv e f = w.setEv e (f (w.ev e)) := rfl
